@@ -104,7 +104,8 @@ Definition on_open (c : conn) (asn id hold : N) (caps : list cap) : conn * list 
   else if negb (c_expected_asn c =? 0) && negb (c_expected_asn c =? asn) then
     (c, [SessDown (RLocalNotif 2 2) (Some (2, 2))])
   else
-    let neg := N.min (c_local_hold c) hold in
+    (* the smaller of the two advertised values: the local OPEN carried open_hold *)
+    let neg := N.min (open_hold (c_local_hold c)) hold in
     let ka := if neg =? 0 then c_ka c else neg / 3 in
     let c' := {| c_state := OpenConfirm; c_local_asn := c_local_asn c; c_local_id := c_local_id c;
                  c_local_hold := c_local_hold c; c_local_cap := c_local_cap c;
